@@ -87,7 +87,9 @@ func driveHistory(c *DriverCtx) error {
 			v := c.G.Value(t, Canon)
 			ops := []Op{{Op: "new", O: "m", V: v}, {Op: "copy", O: "ref", From: "m"}, {Op: "encode", B: "bref", O: "ref", Tag: "reference"}}
 			// prior state of the target buffer
-			switch r.Intn(5) {
+			switch r.Intn(6) {
+			case 5: // empty but roomy: a recycled buffer whose capacity is far larger than the frame
+				ops = append(ops, Op{Op: "write", B: "b", Bytes: make([]int, 6000)}, Op{Op: "next", B: "b", K: 6000})
 			case 0: // empty
 			case 1: // junk
 				ops = append(ops, Op{Op: "write", B: "b", Bytes: c.junk(1 + r.Intn(40))})
@@ -128,7 +130,7 @@ func driveStream(c *DriverCtx) error {
 				k = 5 + r.Intn(16)
 			}
 			ts := []string{t}
-			sameType := IsFrame(t) && i%2 == 1 // a stream of one frame type carrying different bodies
+			sameType := BodyField(t) != nil && i%2 == 1 // a stream of one type carrying different bodies / extensions
 			for j := 1; j < k; j++ {
 				if sameType {
 					ts = append(ts, t)
@@ -216,9 +218,31 @@ func driveCut(c *DriverCtx) error {
 			if err := c.Run(ops); err != nil {
 				return err
 			}
+			// the same with the frame's checksum service removed from the registry (the encoder then
+			// keeps the caller's checksum; a truncated frame must still be rejected)
+			if alg := checksumAlgOf(t); alg != "" && i == 0 {
+				ops2 := []Op{{Op: "regremove", Alg: alg}, {Op: "new", O: "m", V: v}, {Op: "encode", B: "bref", O: "m", Tag: "reference"}}
+				for _, k := range cuts {
+					b := fmt.Sprintf("c%d", k)
+					ops2 = append(ops2, Op{Op: "cut", B: b, From: "bref", K: k}, Op{Op: "decode", B: b, O: "r", T: t, Fresh: true, Tag: "service-removed"})
+				}
+				ops2 = append(ops2, Op{Op: "regrestore", Alg: alg})
+				if err := c.Run(ops2); err != nil {
+					return err
+				}
+			}
 		}
 	}
 	return nil
+}
+
+func checksumAlgOf(t string) string {
+	for _, f := range S.Types[t].Fields {
+		if f.Kind == "checksum" {
+			return f.Alg
+		}
+	}
+	return ""
 }
 
 // Wire-level fuzz for C08: a valid encoding whose field slots are overwritten with arbitrary
@@ -237,7 +261,7 @@ func driveReencode(c *DriverCtx) error {
 			}
 			w := append([]int{}, ev.Post...)
 			slots := SlotMap(t, v, w)
-			if slots != nil {
+			if slots != nil && i%3 != 0 { // every third image stays exactly what the encoder produced (long pad runs intact)
 				for p := range w {
 					if slots[p] == 'd' && c.G.R.Intn(3) == 0 { // data byte: anything goes
 						w[p] = c.G.textByte()
@@ -448,14 +472,35 @@ func driveDirty(c *DriverCtx) error {
 			c.G.MaxList = 2
 			v := c.G.Value(t, Canon)
 			c.G.MaxList = 3
+			if i%3 == 2 {
+				v = emptied(v) // every list empty, every text empty: nothing on the wire overwrites old content
+			}
 			ops := []Op{
 				{Op: "new", O: "md", V: dirty}, {Op: "encode", B: "bd", O: "md"},
 				{Op: "new", O: "m", V: v}, {Op: "encode", B: "b1", O: "m"}, {Op: "encode", B: "b2", O: "m"}, {Op: "encode", B: "b3", O: "m"},
+				{Op: "encode", B: "b4", O: "m"}, {Op: "encode", B: "bsrc", O: "m"},
 				{Op: "decode", B: "b1", O: "fresh", T: t, Fresh: true},
 				{Op: "decode", B: "bd", O: "reused", T: t, Fresh: true, Tag: "make-dirty"},
 				{Op: "decode", B: "b2", O: "reused", T: t, Tag: "into-dirty"},
 				{Op: "new", O: "filled", V: dirty},
 				{Op: "decode", B: "b3", O: "filled", T: t, Tag: "into-built"},
+			}
+			// a receiver whose previous decode FAILED half-way (a truncated message), then the complete one
+			m := NewMachine()
+			if _, err := m.Exec(Op{Op: "new", O: "m", V: v}); err != nil {
+				return err
+			}
+			ev, err := m.Exec(Op{Op: "encode", B: "b", O: "m"})
+			if err != nil {
+				return err
+			}
+			if n := len(ev.Post); n > 1 {
+				// receiver holds the OTHER message, then a truncated copy of this one fails, then the complete one
+				ops = append(ops, Op{Op: "encode", B: "bd2", O: "md"},
+					Op{Op: "decode", B: "bd2", O: "reused2", T: t, Fresh: true, Tag: "make-dirty"},
+					Op{Op: "cut", B: "bcut", From: "bsrc", K: 1 + c.G.R.Intn(n-1)},
+					Op{Op: "decode", B: "bcut", O: "reused2", T: t, Tag: "truncated-into-dirty"},
+					Op{Op: "decode", B: "b4", O: "reused2", T: t, Tag: "into-dirty-after-failed-decode"})
 			}
 			if err := c.Run(ops); err != nil {
 				return err
@@ -463,6 +508,44 @@ func driveDirty(c *DriverCtx) error {
 		}
 	}
 	return nil
+}
+
+// emptied returns a copy of the value tree with every list and every text empty (keys kept)
+func emptied(v map[string]any) map[string]any {
+	t, _ := v["_t"].(string)
+	td, ok := S.Types[t]
+	if !ok {
+		return v
+	}
+	keys := map[string]bool{}
+	for _, f := range td.Fields {
+		if f.Kind == "body" {
+			keys[f.Key] = true
+		}
+	}
+	out := map[string]any{"_t": t}
+	for _, f := range td.Fields {
+		x := v[f.Name]
+		switch f.Kind {
+		case "list", "objlist":
+			out[f.Name] = []any{}
+		case "fixed", "str":
+			if keys[f.Name] {
+				out[f.Name] = x
+			} else {
+				out[f.Name] = []int{}
+			}
+		case "obj", "body":
+			if m, ok := x.(map[string]any); ok && m["_t"] != "nil" {
+				out[f.Name] = emptied(m)
+			} else {
+				out[f.Name] = x
+			}
+		default:
+			out[f.Name] = x
+		}
+	}
+	return out
 }
 
 // Aliasing (C16): decode, then overwrite/reset/reuse the source buffer's memory and look at
@@ -553,6 +636,41 @@ func driveTables(c *DriverCtx) error {
 				if j >= 11 {
 					break
 				}
+			}
+			if err := c.Run(ops); err != nil {
+				return err
+			}
+		}
+		// a receive loop that meets unknown keys: registered, unknown, the SAME unknown again, registered
+		unknownFor := func() []int {
+			if tab.KeyKind == "int" {
+				for {
+					k := c.junk(kf.W)
+					ok := true
+					for _, e := range tab.Entries {
+						if fmt.Sprint(e.Key) == fmt.Sprint(k) {
+							ok = false
+						}
+					}
+					if ok {
+						return k
+					}
+				}
+			}
+			return []int{'9', 'Z', '9'}
+		}
+		for i := 0; i < 3*c.N; i++ {
+			e1 := tab.Entries[c.G.R.Intn(len(tab.Entries))]
+			e2 := tab.Entries[c.G.R.Intn(len(tab.Entries))]
+			uk := unknownFor()
+			ops := []Op{
+				{Op: "new", O: "a", V: mk(e1.Key, c.G.Value(e1.Type, Canon))}, {Op: "encode", B: "b", O: "a"},
+				{Op: "new", O: "u", V: mk(uk, c.G.Value(e2.Type, Canon))}, {Op: "encode", B: "b", O: "u", Tag: "unregistered-with-body"}, {Op: "encode", B: "b2", O: "u", Tag: "unregistered-with-body"},
+				{Op: "new", O: "z", V: mk(e2.Key, c.G.Value(e2.Type, Canon))}, {Op: "encode", B: "b3", O: "z"},
+				{Op: "decode", B: "b", O: "recv", T: owner, Fresh: true, Tag: "recycled-receiver"},
+				{Op: "decode", B: "b", O: "recv", T: owner, Tag: "unregistered-into-used"},
+				{Op: "decode", B: "b2", O: "recv", T: owner, Tag: "same-unregistered-again"},
+				{Op: "decode", B: "b3", O: "recv", T: owner, Tag: "recycled-receiver"},
 			}
 			if err := c.Run(ops); err != nil {
 				return err
@@ -683,7 +801,19 @@ func driveHostile(c *DriverCtx) error {
 	}
 	c.G.Small = true
 	for _, t := range c.types() {
+		nemit := 0
 		emit := func(w []int, tag string) error {
+			nemit++
+			switch {
+			case nemit%5 == 3:
+				// a recycled receive buffer: a large message went through it before (capacity 1 MiB), then Reset
+				return c.Run([]Op{{Op: "fill", B: "b", Args: map[string]any{"runs": []any{map[string]any{"b": 0, "n": 1 << 20}}}}, {Op: "reset", B: "b"},
+					{Op: "write", B: "b", Bytes: w}, {Op: "decode", B: "b", O: "r", T: t, Fresh: true, Meter: true, Tag: tag + "+roomy-buffer"}})
+			case nemit%5 == 4:
+				// a receiver that is reused: the same bytes are given twice to one object
+				return c.Run([]Op{{Op: "load", B: "b", Bytes: w}, {Op: "decode", B: "b", O: "r", T: t, Fresh: true, Meter: true, Tag: tag},
+					{Op: "load", B: "b2", Bytes: w}, {Op: "decode", B: "b2", O: "r", T: t, Meter: true, Tag: tag + "+same-receiver-again"}})
+			}
 			return c.Run([]Op{{Op: "load", B: "b", Bytes: w}, {Op: "decode", B: "b", O: "r", T: t, Fresh: true, Meter: true, Tag: tag}})
 		}
 		for i := 0; i < c.N; i++ {
@@ -748,6 +878,24 @@ func driveHostile(c *DriverCtx) error {
 					}
 				}
 			}
+			// the discriminator slot blanked / zeroed / maximal (a key that trims to the empty text, etc.)
+			if slots != nil {
+				for _, fill := range []int{0x20, 0x00, 0xff, 0x30} {
+					x := append([]int{}, w...)
+					hit := false
+					for p := range x {
+						if slots[p] == 'k' {
+							x[p] = fill
+							hit = true
+						}
+					}
+					if hit {
+						if err := emit(x, "key-blank"); err != nil {
+							return err
+						}
+					}
+				}
+			}
 			// truncation
 			if len(w) > 0 {
 				if err := emit(w[:r.Intn(len(w))], "truncated"); err != nil {
@@ -789,8 +937,8 @@ func driveHostile(c *DriverCtx) error {
 			}
 		}
 		// all-ones and all-zero inputs of a few lengths
-		for _, n := range []int{0, 1, 2, 3, 4, 7, 8, 12, 16, 64} {
-			for _, b := range []int{0xff, 0x00, 0x80} {
+		for _, n := range []int{0, 1, 2, 3, 4, 7, 8, 12, 16, 64, 700, 2500} {
+			for _, b := range []int{0xff, 0x00, 0x80, 0x20, 0x30} {
 				x := make([]int, n)
 				for j := range x {
 					x[j] = b
@@ -926,9 +1074,12 @@ func driveBigFrames(c *DriverCtx) error {
 				v := c.G.Value(ft, Canon)
 				v[tab.KeyField] = e.Key
 				v[bf.Name] = body
-				ops := []Op{{Op: "new", O: "m", V: v}}
-				if i%2 == 1 {
+				ops := []Op{{Op: "new", O: "m", V: v}, {Op: "copy", O: "ref", From: "m"}, {Op: "encode", B: "bref", O: "ref", Tag: "reference"}}
+				switch i % 3 {
+				case 1:
 					ops = append(ops, Op{Op: "write", B: "b", Bytes: c.junk(5)}, Op{Op: "next", B: "b", K: 2})
+				case 2: // a recycled, roomy buffer
+					ops = append(ops, Op{Op: "write", B: "b", Bytes: make([]int, 20000)}, Op{Op: "next", B: "b", K: 20000})
 				}
 				ops = append(ops, Op{Op: "encode", B: "b", O: "m", Tag: "big-frame"}, Op{Op: "encode", B: "b", O: "m", Tag: "again"})
 				if err := c.Run(ops); err != nil {
@@ -941,3 +1092,86 @@ func driveBigFrames(c *DriverCtx) error {
 }
 
 func init() { Drivers["big-frames"] = driveBigFrames }
+
+// Encoding depends only on the message (C06), across OBJECTS: after other messages of the same
+// type were encoded and decoded - also into the very object that was encoded first - a freshly
+// built equal message must still encode to the same bytes (no state shared between objects).
+func driveEncodeReuse(c *DriverCtx) error {
+	for _, t := range c.types() {
+		for i := 0; i < c.N; i++ {
+			mode := Canon
+			if i%2 == 1 {
+				mode = Wild // sparse values: nil bodies / nil nested parts
+			}
+			v := c.G.Value(t, mode)
+			if mode == Wild { // sparse: every nested part the caller may leave out is left out
+				for _, f := range S.Types[t].Fields {
+					if f.Kind == "obj" && !f.ByValue {
+						v[f.Name] = nilObj
+					}
+				}
+			}
+			other := c.G.Value(t, Canon)
+			ops := []Op{
+				{Op: "new", O: "a", V: v}, {Op: "encode", B: "ba", O: "a", Tag: "reference"},
+				{Op: "new", O: "p", V: other}, {Op: "encode", B: "bp", O: "p"},
+				{Op: "decode", B: "bp", O: "a", T: t, Tag: "into-encoded-object"},
+				{Op: "mutate", O: "a"},
+				{Op: "new", O: "c", V: v}, {Op: "encode", B: "bc", O: "c", Tag: "equal-message-later"},
+			}
+			if err := c.Run(ops); err != nil {
+				return err
+			}
+		}
+	}
+	return nil
+}
+
+// Long lists (C07/C01): lists whose count x element size crosses 65,536 (the points where an
+// offset computed in the prefix type would wrap), followed by a second message in the stream.
+func driveLongLists(c *DriverCtx) error {
+	type cs struct {
+		t, f string
+		w    int
+		ns   []int
+	}
+	cases := []cs{
+		{"sse.ExecRptInfo", "SetId", 4, []int{16383, 16384, 40000}},
+		{"sample.BasicPacket", "FieldU64List", 8, []int{8191, 8192}},
+		{"sample.BasicPacket", "FieldI16List", 2, []int{32767, 32768}},
+	}
+	if c.N > 1 {
+		cases = append(cases, cs{"sample.BasicPacket", "FieldF64List", 8, []int{8192, 20000}}, cs{"sample.BasicPacket", "FieldI32List", 4, []int{16384, 65535}},
+			cs{"sample.BasicPacket", "FieldU8List", 1, []int{65535}}, cs{"sample.SubPacket", "FieldI16List", 2, []int{32768, 65535}},
+			cs{"sse.ExecRptInfo", "SetId", 4, []int{16385, 32768, 65535}})
+	}
+	for _, k := range cases {
+		for _, n := range k.ns {
+			c.G.Small = true
+			v := c.G.Value(k.t, Canon)
+			tail := c.G.Value("sse.Logout", Canon)
+			c.G.Small = false
+			el := make([]int, k.w)
+			for j := range el {
+				el[j] = 1 + j
+			}
+			lst := make([]any, n)
+			for j := range lst {
+				lst[j] = el
+			}
+			v[k.f] = lst
+			ops := []Op{{Op: "new", O: "m", V: v}, {Op: "encode", B: "b", O: "m", Tag: fmt.Sprintf("%s.%s len=%d", k.t, k.f, n)},
+				{Op: "new", O: "m2", V: tail}, {Op: "encode", B: "b", O: "m2"},
+				{Op: "decode", B: "b", O: "r", T: k.t, Fresh: true}, {Op: "decode", B: "b", O: "r2", T: "sse.Logout", Fresh: true}, {Op: "peek", B: "b"}}
+			if err := c.Run(ops); err != nil {
+				return err
+			}
+		}
+	}
+	return nil
+}
+
+func init() {
+	Drivers["encode-reuse"] = driveEncodeReuse
+	Drivers["long-lists"] = driveLongLists
+}
